@@ -41,17 +41,14 @@ Definition ct_state_eqb (a b : ct_state) : bool :=
   json_eqb (JObj (metrics_payload (ct_avgs a))) (JObj (metrics_payload (ct_avgs b))).
 
 (* stream "reload-caltrack": document, attributes of the reloaded wrapper as a state literal, and what the reloaded
-   wrapper serialises to (None = raised).  Agreement with the code as it is, or with the proposed repairs
-   (integer month keys restored; reloaded warnings / metrics serialisable). *)
+   wrapper serialises to (None = raised), against from_dict / to_dict as coded *)
 Definition check_creload (cs : json * option ct_state * option json) : bool :=
   let '(d, s2, redump) := cs in
   match s2 with
   | None => match ct_from_doc d with None => true | Some _ => false end
   | Some s2 =>
-      match ct_from_doc d, ct_from_doc_repaired d with
-      | Some a, Some r =>
-          (ct_state_eqb a s2 || ct_state_eqb r s2) &&
-          (ojson_eqb (ct_to_doc a) redump || ojson_eqb (ct_to_doc_repaired a) redump)
-      | _, _ => false
+      match ct_from_doc d with
+      | Some r => ct_state_eqb r s2 && ojson_eqb (ct_to_doc r) redump
+      | None => false
       end
   end.
